@@ -92,4 +92,13 @@ CHECKS = {
         "level_note": "scheduling points: every Lock/RLock/Once.Do/atomic operation of msg/msgbox.go; code between points is assumed thread-local or protected (data races are C20's business); 9 scenarios of 2-3 threads",
         "budget_s": {"quick": 170, "thorough": 900},
     },
+    "C20": {
+        "pkg": "checks/c20", "level": "model_checking", "engine": "E3 thread-level", "race": True,
+        "overlay": "shim:msg/msgbox.go,mpc/bls/mpc.go,mpc/ps/tps.go,threshold/threshold.go", "overlay_fallback": False,
+        "technique": "stateless model checking of thread interleavings with per-schedule race detection: cooperative scheduler at lock/atomic granularity (sync shim by overlay) in a -race build whose detector sees only the program's own synchronisation",
+        "level_text": "every interleaving within the preemption bound of (a) BLS/PS Init+KeyGen against dispatcher threads delivering real peer messages (in phase, early, duplicated), (b) concurrent receive/send/tick calls on msg.Box, (c) Scheme.HandleMessage on two dispatcher threads against KeyGen/Sign entering and leaving; zero data-race reports with both stacks in repository code",
+        "level_note": "exhaustive at lock/atomic granularity for the instrumented files only (msgbox.go, bls/mpc.go, ps/tps.go, threshold.go); channel operations are real and not scheduling points; discovery.go and the adapters are not instrumented; Go memory model (no hardware reorderings of racy code)",
+        "budget_s": {"quick": 170, "thorough": 900},
+        "confirm": 2,
+    },
 }
